@@ -13,7 +13,7 @@ use cascette_formats::download::{
 use cascette_formats::install::{
     InstallError, InstallHeader, InstallManifest, InstallManifestBuilder, TagType,
 };
-use cascette_formats::size::{SizeManifest, SizeManifestBuilder};
+use cascette_formats::size::{SizeError, SizeManifest, SizeManifestBuilder};
 use std::collections::BTreeSet;
 use std::panic::AssertUnwindSafe;
 use verif_harness::*;
@@ -72,6 +72,121 @@ fn names_of(h: &str) -> Option<Vec<String>> {
         return Some(vec![]);
     }
     h.split(',').map(name_of).collect()
+}
+
+
+fn serr(e: &SizeError) -> String {
+    match e {
+        SizeError::UnsupportedVersion(_) => "err:version",
+        SizeError::InvalidEKeySize(_) => "err:ekey",
+        SizeError::InvalidEsizeWidth(_) => "err:width",
+        SizeError::TotalSizeTooLarge(_) => "err:total-too-large",
+        SizeError::TagCountMismatch { .. } => "err:tag-count",
+        SizeError::EntryCountMismatch { .. } => "err:entry-count",
+        SizeError::TruncatedData { .. } => "err:key-len",
+        SizeError::EsizeTooLarge { .. } => "err:esize",
+        SizeError::TotalSizeMismatch { .. } => "err:total",
+        _ => "err:other",
+    }
+    .into()
+}
+
+/// UTF-8 well-formedness BY DEFINITION (decode each sequence from its lead byte, require 10xxxxxx
+/// continuations, the shortest form, a scalar value: no surrogate, <= U+10FFFF). Shares nothing
+/// with `core::str::from_utf8` nor with the model's table 3-7 automaton.
+fn utf8_by_definition(b: &[u8]) -> bool {
+    let mut i = 0;
+    while i < b.len() {
+        let l = b[i];
+        let (len, min, init) = if l < 0x80 { (1, 0u32, u32::from(l)) }
+            else if l & 0xE0 == 0xC0 { (2, 0x80, u32::from(l & 0x1F)) }
+            else if l & 0xF0 == 0xE0 { (3, 0x800, u32::from(l & 0x0F)) }
+            else if l & 0xF8 == 0xF0 { (4, 0x1_0000, u32::from(l & 0x07)) }
+            else { return false };
+        if i + len > b.len() { return false; }
+        let mut cp = init;
+        for k in 1..len {
+            let c = b[i + k];
+            if c & 0xC0 != 0x80 { return false; }
+            cp = (cp << 6) | u32::from(c & 0x3F);
+        }
+        if cp < min || cp > 0x10_FFFF || (0xD800..=0xDFFF).contains(&cp) { return false; }
+        i += len;
+    }
+    true
+}
+
+/// Independent walker: byte spans (start, len) of every NUL-terminated string (tag names, install
+/// paths) of a serialised install / download / size manifest. None if the structure is incomplete.
+fn raw_name_spans(b: &[u8]) -> Option<Vec<(usize, usize)>> {
+    let be = |s: &[u8]| s.iter().fold(0usize, |a, &x| a * 256 + x as usize);
+    let mut out = vec![];
+    let cstr = |pos: usize| -> Option<usize> { b.get(pos..)?.iter().position(|&x| x == 0) };
+    if b.len() >= 10 && &b[0..2] == b"IN" {
+        let (tc, n) = (be(&b[4..6]), be(&b[6..10]));
+        let v2 = b[2] >= 2;
+        let mut pos = if v2 { 16 } else { 10 };
+        for _ in 0..tc {
+            let z = cstr(pos)?;
+            out.push((pos, z));
+            pos += z + 1 + 2 + n.div_ceil(8);
+        }
+        for _ in 0..n {
+            let z = cstr(pos)?;
+            out.push((pos, z));
+            pos += z + 1 + 16 + 4 + usize::from(v2);
+        }
+        if pos > b.len() { return None; }
+    } else if b.len() >= 11 && &b[0..2] == b"DL" {
+        let (n, tc) = (be(&b[5..9]), be(&b[9..11]));
+        let v = b[2];
+        let fs = if v >= 2 { *b.get(11)? as usize } else { 0 };
+        let mut pos = match v { 1 => 11, 2 => 12, _ => 16 };
+        pos += n * (22 + if b[4] != 0 { 4 } else { 0 } + fs);
+        for _ in 0..tc {
+            let z = cstr(pos)?;
+            out.push((pos, z));
+            pos += z + 1 + 2 + n.div_ceil(8);
+        }
+        if pos > b.len() { return None; }
+    } else if b.len() >= 15 && &b[0..2] == b"DS" {
+        let (n, tc) = (be(&b[4..8]), be(&b[8..10]));
+        let (mut pos, w) = if b[2] == 1 { (19, *b.get(18)? as usize) } else { (15, 4) };
+        for _ in 0..tc {
+            let z = cstr(pos)?;
+            out.push((pos, z));
+            pos += z + 1 + 2 + n.div_ceil(8);
+        }
+        pos += n * (b[3] as usize + w);
+        if pos > b.len() { return None; }
+    } else {
+        return None;
+    }
+    Some(out)
+}
+
+/// result line of the REAL parser for `parse <hex>`
+fn real_parse_line(b: &[u8]) -> String {
+    let names = |v: Vec<&str>| if v.is_empty() { "-".to_string() } else { v.iter().map(|n| hex(n.as_bytes())).collect::<Vec<_>>().join(",") };
+    if b.starts_with(b"IN") {
+        match InstallManifest::parse(b) {
+            Ok(m) => format!("ok tags={} entries={} names={}", m.tags.len(), m.entries.len(),
+                names(m.tags.iter().map(|t| t.name.as_str()).chain(m.entries.iter().map(|e| e.path.as_str())).collect())),
+            Err(_) => "err".into(),
+        }
+    } else if b.starts_with(b"DL") {
+        match DownloadManifest::parse(b) {
+            Ok(m) => format!("ok tags={} entries={} names={}", m.tags.len(), m.entries.len(), names(m.tags.iter().map(|t| t.name.as_str()).collect())),
+            Err(_) => "err".into(),
+        }
+    } else if b.starts_with(b"DS") {
+        match SizeManifest::parse(b) {
+            Ok(m) => format!("ok tags={} entries={} names={} total={}", m.tags.len(), m.entries.len(), names(m.tags.iter().map(|t| t.name.as_str()).collect()), m.header.total_size()),
+            Err(_) => "err".into(),
+        }
+    } else {
+        "err".into()
+    }
 }
 
 // ---------------------------------------------------------------- reference set model (oracle)
@@ -189,6 +304,11 @@ enum SizeOp {
     Tag(String, TagType),
     TagFile(usize, usize),
     Entry,
+    EntryKv(Vec<u8>, u64),
+    Version(u8),
+    Ekey(u8),
+    TagCount(u16),
+    Esize(u8),
 }
 
 #[derive(Default)]
@@ -199,10 +319,55 @@ struct Ctx {
     size_ops: Vec<SizeOp>,
     im: Option<InstallManifest>,
     dm: Option<DownloadManifest>,
+    sm: Option<SizeManifest>,
     bytes: Vec<u8>,
     rf: RefModel,
     lines: Vec<String>,
     built_ok: bool,
+}
+
+
+/// reference view of a size-builder program (oracle)
+struct SizeRef {
+    want: Vec<BTreeSet<usize>>,
+    esizes: Vec<u64>,
+    key_lens: Vec<usize>,
+    version: u8,
+    ekey: u8,
+    tag_count: u16,
+    width: u8,
+}
+
+impl SizeRef {
+    fn of(ops: &[SizeOp]) -> Self {
+        let mut r = SizeRef { want: vec![], esizes: vec![], key_lens: vec![], version: 2, ekey: 9, tag_count: 0, width: 4 };
+        for op in ops {
+            match op {
+                SizeOp::Tag(..) => r.want.push(BTreeSet::new()),
+                SizeOp::TagFile(t, f) => { r.want[*t].insert(*f); }
+                SizeOp::Entry => { r.key_lens.push(9); r.esizes.push(3 * (r.esizes.len() as u64 + 1)); }
+                SizeOp::EntryKv(k, e) => { r.key_lens.push(k.len()); r.esizes.push(*e); }
+                SizeOp::Version(v) => r.version = *v,
+                SizeOp::Ekey(v) => r.ekey = *v,
+                SizeOp::TagCount(v) => r.tag_count = *v,
+                SizeOp::Esize(v) => r.width = *v,
+            }
+        }
+        r
+    }
+    /// does every documented requirement hold? (then build must succeed, else it must fail)
+    fn expect_ok(&self) -> bool {
+        let w = if self.version == 1 { self.width } else { 4 };
+        let total: u128 = self.esizes.iter().map(|&e| u128::from(e)).sum();
+        (self.version == 1 || self.version == 2)
+            && (1..=16).contains(&self.ekey)
+            && (self.version == 2 || (1..=8).contains(&self.width))
+            && (if self.want.is_empty() { self.tag_count == 0 } else { self.want.len() < 65536 })
+            && self.key_lens.iter().all(|&l| l == self.ekey as usize)
+            && self.esizes.iter().all(|&e| w >= 8 || e >> (8 * u32::from(w)) == 0)
+            && total <= u128::from(u64::MAX)
+            && (self.version == 1 || total <= 0xFF_FFFF_FFFF)
+    }
 }
 
 fn size_builder(ops: &[SizeOp]) -> SizeManifestBuilder {
@@ -218,6 +383,14 @@ fn size_builder(ops: &[SizeOp]) -> SizeManifestBuilder {
                 key[5..9].copy_from_slice(&k.to_be_bytes());
                 b.add_entry(key, u64::from(k) * 3)
             }
+            SizeOp::EntryKv(key, e) => {
+                k += 1;
+                b.add_entry(key.clone(), *e)
+            }
+            SizeOp::Version(v) => b.version(*v),
+            SizeOp::Ekey(v) => b.ekey_size(*v),
+            SizeOp::TagCount(v) => b.tag_count(*v),
+            SizeOp::Esize(v) => b.esize_bytes(*v),
         };
     }
     b
@@ -227,7 +400,9 @@ fn fail(s: &mut Session, c: &Ctx, sig: &str, msg: String) {
     // once a live tag name was added twice, names no longer identify tags: every check that goes
     // through a name is reported under the one recorded signature; checks that do not depend on
     // tag identity keep their own.
-    const KEEP: [&str; 10] = ["mask-len", "reparse", "u40", "prio-roundtrip", "prio-filter", "file-size", "header", "mask-combine", "file-count", "build-fails"];
+    const KEEP: [&str; 19] = ["mask-len", "reparse", "u40", "prio-roundtrip", "prio-filter", "file-size", "header", "mask-combine", "file-count", "build-fails",
+        "size-total", "size-entries", "size-build-fails", "size-build-accepts", "utf8-accept", "utf8-reject", "utf8-def", "size-tag-set", "size-total-u64-wrap"];
+    const _: () = ();
     let sig = if c.rf.dup && !KEEP.contains(&sig) { "tag-set-dupname" } else { sig };
     s.oracle_fail(sig, &msg, &c.lines);
 }
@@ -896,40 +1071,174 @@ fn exec_inner(s: &mut Session, c: &mut Ctx, toks: &[&str]) -> Option<String> {
             c.size_ops.push(SizeOp::Entry);
             "ok".into()
         }
-        ["sbuild"] => {
+        ["sentry", key, esize] => {
+            let key = unhex(key)?;
+            let e: u64 = esize.parse().ok()?;
             if c.mode != 3 {
                 return None;
             }
-            match size_builder(&c.size_ops).build() {
-                Ok(m) => {
-                    let n = m.entries.len();
-                    // O: every tagged file below the entry count survives build + serialise + parse
-                    let mut want: Vec<BTreeSet<usize>> = vec![];
-                    for op in &c.size_ops {
-                        match op {
-                            SizeOp::Tag(..) => want.push(BTreeSet::new()),
-                            SizeOp::TagFile(t, f) => { want[*t].insert(*f); }
-                            SizeOp::Entry => {}
+            c.size_ops.push(SizeOp::EntryKv(key, e));
+            "ok".into()
+        }
+        [op @ ("sver" | "sekey" | "stagcount" | "sesize"), v] => {
+            if c.mode != 3 {
+                return None;
+            }
+            c.size_ops.push(match *op {
+                "sver" => SizeOp::Version(v.parse().ok()?),
+                "sekey" => SizeOp::Ekey(v.parse().ok()?),
+                "stagcount" => SizeOp::TagCount(v.parse().ok()?),
+                _ => SizeOp::Esize(v.parse().ok()?),
+            });
+            "ok".into()
+        }
+        [op @ ("sbuild" | "sser")] => {
+            if c.mode != 3 {
+                return None;
+            }
+            let sr = SizeRef::of(&c.size_ops);
+            let built = catch(AssertUnwindSafe(|| size_builder(&c.size_ops).build()));
+            let wraps = sr.esizes.iter().map(|&e| u128::from(e)).sum::<u128>() > u128::from(u64::MAX);
+            s.tally(&format!("size.{op}.v{}.{}", sr.version, match &built { Err(_) => "panic".to_string(), Ok(Err(e)) => serr(e), Ok(Ok(_)) => if wraps { "ok-wrapped".into() } else { "ok".to_string() } }));
+            if wraps {
+                // the sum of the esizes does not fit a u64: the release build wraps it (recorded finding)
+                return Some(match built {
+                    Err(_) => "panic".into(),
+                    Ok(Err(e)) => serr(&e),
+                    Ok(Ok(m)) => {
+                        fail(s, c, "size-total-u64-wrap", format!("size build accepted entries whose esizes sum to more than u64::MAX; header total_size {} is the wrapped sum", m.header.total_size()));
+                        if *op == "sbuild" {
+                            format!("{} {}", m.entries.len(), join_or(m.tags.iter().map(|t| mask_line(&t.name, t.tag_type as u16, &t.bit_mask)).collect()))
+                        } else {
+                            match m.build() {
+                                Ok(b) => {
+                                    c.sm = SizeManifest::parse(&b).ok();
+                                    c.bytes = b.clone();
+                                    hex(&b)
+                                }
+                                Err(_) => "err:validate".into(),
+                            }
                         }
                     }
-                    let parsed = m.build().ok().and_then(|b| SizeManifest::parse(&b).ok());
-                    match parsed {
+                });
+            }
+            match built {
+                Err(_) => "panic".into(),
+                Ok(Err(e)) => {
+                    if sr.expect_ok() {
+                        fail(s, c, "size-build-fails", format!("size build failed ({e}) on a configuration every check of which holds in the reference"));
+                    }
+                    serr(&e)
+                }
+                Ok(Ok(m)) => {
+                    let n = m.entries.len();
+                    if !sr.expect_ok() {
+                        fail(s, c, "size-build-accepts", "size build accepted a configuration the reference rejects (version / key size / esize width / tag count / key length / esize wider than its field / 40-bit total)".into());
+                    }
+                    let ser = m.build();
+                    let parsed = ser.as_ref().ok().and_then(|b| SizeManifest::parse(b).ok());
+                    match &parsed {
                         None => fail(s, c, "reparse", "built size manifest does not serialise/parse".into()),
                         Some(p) => {
-                            for (t, w) in p.tags.iter().zip(&want) {
+                            if *p != m {
+                                fail(s, c, "reparse", "size: parse(build(m)) != m".into());
+                            }
+                            // O: every tagged file below the entry count survives build + serialise + parse
+                            for (t, w) in p.tags.iter().zip(&sr.want) {
                                 let got: Vec<usize> = (0..n).filter(|&i| t.has_file(i)).collect();
                                 let w: Vec<usize> = w.iter().copied().filter(|&i| i < n).collect();
                                 if got != w || t.bit_mask.len() != n.div_ceil(8) {
                                     fail(s, c, "size-tag-set", format!("size manifest tag {:?}: files {} (mask {} bytes), tagged {}", t.name, idx_list(&got), t.bit_mask.len(), idx_list(&w)));
                                 }
                             }
+                            if p.tags.len() != sr.want.len() {
+                                fail(s, c, "size-tag-set", format!("size manifest has {} tags, {} were added", p.tags.len(), sr.want.len()));
+                            }
+                            // O: size totals = sums over the added entries
+                            let got: Vec<u64> = p.entries.iter().map(|e| e.esize).collect();
+                            if got != sr.esizes {
+                                fail(s, c, "size-entries", format!("re-parsed esizes {got:?} differ from the added {:?}", sr.esizes));
+                            }
+                            let want: u128 = sr.esizes.iter().map(|&e| u128::from(e)).sum();
+                            if u128::from(p.header.total_size()) != want {
+                                fail(s, c, "size-total", format!("header total_size {} != sum of the added esizes {want}", p.header.total_size()));
+                            }
                             c.built_ok = true;
                         }
                     }
-                    format!("{n} {}", join_or(m.tags.iter().map(|t| mask_line(&t.name, t.tag_type as u16, &t.bit_mask)).collect()))
+                    if *op == "sbuild" {
+                        format!("{n} {}", join_or(m.tags.iter().map(|t| mask_line(&t.name, t.tag_type as u16, &t.bit_mask)).collect()))
+                    } else {
+                        match ser {
+                            Ok(b) => {
+                                c.bytes = b.clone();
+                                c.sm = parsed;
+                                hex(&b)
+                            }
+                            Err(_) => "err:validate".into(),
+                        }
+                    }
                 }
-                Err(_) => "err".into(),
             }
+        }
+        ["sreparse"] => {
+            if c.mode != 3 {
+                return None;
+            }
+            match &c.sm {
+                Some(m) => format!("ok v={} tags={} entries={} total={} width={} same={}", m.header.version(), m.tags.len(), m.entries.len(), m.header.total_size(), m.header.esize_bytes(), u8::from(m.build().ok().as_deref() == Some(&c.bytes[..]))),
+                None => "err".into(),
+            }
+        }
+        ["sq", "tags"] => match &c.sm {
+            Some(m) => tag_lines(&m.tags, m.entries.len()),
+            None => "no-manifest".into(),
+        },
+        ["sq", "sizes"] => match &c.sm {
+            Some(m) => if m.entries.is_empty() { "-".into() } else { m.entries.iter().map(|e| e.esize.to_string()).collect::<Vec<_>>().join(",") },
+            None => "no-manifest".into(),
+        },
+        ["utf8", h] => {
+            let b = unhex(h)?;
+            let real = std::str::from_utf8(&b).is_ok();
+            if real != utf8_by_definition(&b) {
+                fail(s, c, "utf8-def", format!("from_utf8({}) = {real}, by-definition decoder disagrees", hex(&b)));
+            }
+            u8::from(real).to_string()
+        }
+        ["parse", h] => {
+            let b = unhex(h)?;
+            let r = real_parse_line(&b);
+            {
+                let f = String::from_utf8_lossy(&b[..b.len().min(2)]).to_string();
+                let cls = match raw_name_spans(&b) {
+                    None => "incomplete",
+                    Some(sp) => if sp.iter().all(|&(p, l)| utf8_by_definition(&b[p..p + l])) { if sp.iter().any(|&(p, l)| b[p..p + l].iter().any(|&x| x >= 0x80)) { "wellformed-nonascii" } else { "ascii" } } else { "malformed-name" },
+                };
+                s.tally(&format!("parse.{f}.{cls}.{}", if r.starts_with("ok") { "accepted" } else { "rejected" }));
+            }
+            // O: accepted => every string of the input is NUL-free (by construction of the walker) well-formed UTF-8;
+            //    rejected although every string is well-formed => the same bytes with the strings
+            //    replaced by ASCII of the same length must be rejected too (else the rejection was
+            //    about a well-formed name).
+            if let Some(spans) = raw_name_spans(&b) {
+                let all_ok = spans.iter().all(|&(p, l)| utf8_by_definition(&b[p..p + l]));
+                if r.starts_with("ok") && !all_ok {
+                    let bad = spans.iter().find(|&&(p, l)| !utf8_by_definition(&b[p..p + l])).map(|&(p, l)| hex(&b[p..p + l])).unwrap_or_default();
+                    fail(s, c, "utf8-accept", format!("parser accepted a manifest whose name/path {bad} is not well-formed UTF-8"));
+                }
+                if !r.starts_with("ok") && all_ok {
+                    let mut v = b.clone();
+                    for &(p, l) in &spans {
+                        for x in &mut v[p..p + l] { *x = b'x'; }
+                    }
+                    if real_parse_line(&v).starts_with("ok") && spans.iter().any(|&(p, l)| b[p..p + l].iter().any(|&x| x >= 0x80)) {
+                        fail(s, c, "utf8-reject", "parser rejected a manifest whose names are all well-formed UTF-8 (the same bytes with ASCII names are accepted)".into());
+                    }
+                }
+                if r.starts_with("ok") { c.built_ok = true; }
+            }
+            r
         }
         _ => return None,
     };
@@ -1222,13 +1531,208 @@ impl Gen<'_> {
         self.send("sbuild".into());
         self.end_case();
     }
+
+    /// whole SizeManifestBuilder: configuration setters in any position, explicit keys / esizes
+    /// around the esize-width and 40-bit-total boundaries, serialise, re-parse, totals, truncation
+    fn size_full_case(&mut self) {
+        self.send("begin size".into());
+        let version: u64 = match self.rng.below(30) { 0 => 0, 1 => 3, 2..=15 => 1, _ => 2 };
+        let ekey: u64 = match self.rng.below(30) { 0 => 0, 1 => 17, 2..=4 => 16, 5..=7 => 1, _ => 9 };
+        let width: u64 = match self.rng.below(30) { 0 => 0, 1 => 9, 2..=5 => 8, _ => self.rng.range(1, 8) };
+        let mut cfg = vec![format!("sver {version}"), format!("sekey {ekey}"), format!("sesize {width}")];
+        if self.rng.chance(1, 4) {
+            cfg.push(format!("stagcount {}", if self.rng.chance(2, 3) { 0 } else { self.rng.below(3) }));
+        }
+        let nt = self.rng.range(0, 4) as usize;
+        let ne = self.rng.range(0, 20) as usize;
+        let w = if version == 1 { width.clamp(1, 8) } else { 4 };
+        let lim: u64 = if w >= 8 { u64::MAX } else { (1u64 << (8 * w)) - 1 };
+        let mut prog: Vec<String> = vec![];
+        for i in 0..nt {
+            let nm = ["Windows", "enUS", "é€", "x86_64"][i % 4];
+            prog.push(format!("tag {} {}", hex(nm.as_bytes()), TAG_TYPES[self.rng.below(17) as usize]));
+        }
+        for _ in 0..ne {
+            let klen = if self.rng.chance(1, 150) { ekey as usize + 1 } else { ekey as usize };
+            self.key_ctr += 1;
+            let mut k = self.rng.bytes(klen.max(1));
+            k.truncate(klen);
+            let e: u64 = match self.rng.below(14) {
+                0 => 0,
+                1 => lim,
+                2 => if self.rng.chance(1, 12) { lim.wrapping_add(1) } else { lim },
+                3 => lim / 2 + 1,
+                4 if version == 2 => 0xFFFF_FFFF,
+                5 if w >= 8 && self.rng.chance(1, 3) => 1u64 << 63,
+                _ => self.rng.below(lim.min(1 << 20) + 1),
+            };
+            prog.push(format!("sentry {} {e}", hex(&k)));
+        }
+        for _ in 0..(nt * 5) {
+            let ti = self.rng.below(nt as u64 + 1) as usize;
+            let fi = self.rng.below(ne as u64 + 10) as usize;
+            prog.push(format!("stagfile {ti} {fi}"));
+        }
+        // setters anywhere in the program; tag_file only after its tag exists is not required by the builder
+        for c_ in cfg {
+            let at = self.rng.below(prog.len() as u64 + 1) as usize;
+            prog.insert(at, c_);
+        }
+        // keep every `tag` before the `stagfile`s that index it would need a sort; a panic is a valid outcome too
+        for l in prog {
+            self.send(l);
+        }
+        self.send("sbuild".into());
+        let r = self.send("sser".into());
+        if !r.starts_with("err") && r != "panic" {
+            self.send("sreparse".into());
+            self.send("sq tags".into());
+            self.send("sq sizes".into());
+            let bytes = self.c.bytes.clone();
+            self.send(format!("parse {}", hex(&bytes)));
+            let len = bytes.len();
+            for cut in [len - 1, self.rng.below(len as u64) as usize] {
+                self.send(format!("parse {}", hex(&bytes[..cut])));
+            }
+            // trailing bytes are ignored
+            let mut t = bytes.clone();
+            t.extend_from_slice(&[0xAA, 0xBB]);
+            self.send(format!("parse {}", hex(&t)));
+        }
+        self.end_case();
+    }
+
+    fn utf8_name(&mut self) -> Vec<u8> {
+        const POOL: [&[u8]; 30] = [
+            b"A", b"Windows", b"", b"enUS", "é".as_bytes(), "€".as_bytes(), "😀".as_bytes(), "a€b😀c".as_bytes(),
+            &[0xED, 0x9F, 0xBF], &[0xEE, 0x80, 0x80], &[0xF4, 0x8F, 0xBF, 0xBF], &[0xEF, 0xBF, 0xBF], &[0xC2, 0x80], &[0xDF, 0xBF],
+            &[0xE0, 0xA0, 0x80], &[0xF0, 0x90, 0x80, 0x80],
+            // malformed
+            &[0xC0, 0x80], &[0xC1, 0xBF], &[0xED, 0xA0, 0x80], &[0xED, 0xBF, 0xBF], &[0xF4, 0x90, 0x80, 0x80], &[0xE2, 0x82], &[0x80], &[0xFF],
+            &[0xF8, 0x88, 0x80, 0x80, 0x80], &[0xC3], &[0xE0, 0x80, 0x80], &[0xE0, 0x9F, 0xBF], &[0xF0, 0x8F, 0xBF, 0xBF], &[0x41, 0xC3, 0x28],
+        ];
+        match self.rng.below(10) {
+            0 => { let n = self.rng.range(1, 5) as usize; self.rng.bytes(n).into_iter().map(|b| if b == 0 { 0x80 } else { b }).collect() }
+            1..=5 => POOL[self.rng.below(16) as usize].to_vec(),
+            6 => { let mut v = POOL[self.rng.below(16) as usize].to_vec(); v.extend_from_slice(POOL[self.rng.below(30) as usize]); v }
+            _ => POOL[self.rng.below(30) as usize].to_vec(),
+        }
+    }
+
+    /// hand-framed install / download / size manifests whose tag names and paths are arbitrary
+    /// NUL-free byte strings (well-formed and malformed UTF-8): the parsers AS WRITTEN vs the model
+    fn utf8_case(&mut self, fmt: u8) {
+        self.send(match fmt { 0 => "begin install".to_string(), 1 => "begin download 1".to_string(), _ => "begin size".to_string() });
+        let nt = self.rng.range(0, 3) as usize;
+        let n = self.rng.range(0, 10) as usize;
+        let all_valid = self.rng.chance(1, 3);
+        let mut name = |g: &mut Self| loop {
+            let v = g.utf8_name();
+            if !all_valid || utf8_by_definition(&v) { return v; }
+        };
+        let msz = n.div_ceil(8);
+        let mut tags: Vec<u8> = vec![];
+        let mut names: Vec<Vec<u8>> = vec![];
+        for _ in 0..nt {
+            let nm = name(self);
+            tags.extend_from_slice(&nm);
+            tags.push(0);
+            tags.extend_from_slice(&TAG_TYPES[self.rng.below(17) as usize].to_be_bytes());
+            tags.extend(self.rng.bytes(msz));
+            names.push(nm);
+        }
+        let mut b: Vec<u8> = vec![];
+        match fmt {
+            0 => {
+                let v2 = self.rng.chance(1, 3);
+                b.extend_from_slice(&[b'I', b'N', if v2 { 2 } else { 1 }, 16]);
+                b.extend_from_slice(&(nt as u16).to_be_bytes());
+                b.extend_from_slice(&(n as u32).to_be_bytes());
+                if v2 { b.extend_from_slice(&[16, 0, 0, 0, n as u8, 0]); }
+                b.extend_from_slice(&tags);
+                for _ in 0..n {
+                    let p = if self.rng.chance(1, 6) { name(self) } else { b"f/x.dat".to_vec() };
+                    b.extend_from_slice(&p);
+                    b.push(0);
+                    b.extend(self.rng.bytes(16));
+                    b.extend_from_slice(&(self.rng.below(1 << 20) as u32).to_be_bytes());
+                    if v2 { b.push(1); }
+                    names.push(p);
+                }
+            }
+            1 => {
+                let v = self.rng.range(1, 3) as u8;
+                b.extend_from_slice(&[b'D', b'L', v, 16, 0]);
+                b.extend_from_slice(&(n as u32).to_be_bytes());
+                b.extend_from_slice(&(nt as u16).to_be_bytes());
+                if v >= 2 { b.push(0); }
+                if v >= 3 { b.extend_from_slice(&[0, 0, 0, 0]); }
+                for _ in 0..n {
+                    b.extend(self.rng.bytes(16));
+                    b.extend_from_slice(&[0, 0, 0, 1, 0, 0]);
+                }
+                b.extend_from_slice(&tags);
+            }
+            _ => {
+                b.extend_from_slice(&[b'D', b'S', 2, 9]);
+                b.extend_from_slice(&(n as u32).to_be_bytes());
+                b.extend_from_slice(&(nt as u16).to_be_bytes());
+                b.extend_from_slice(&[0, 0, 0, 0, (n * 2) as u8]);
+                b.extend_from_slice(&tags);
+                for _ in 0..n {
+                    b.extend(self.rng.bytes(9));
+                    b.extend_from_slice(&[0, 0, 0, 2]);
+                }
+            }
+        }
+        for nm in &names {
+            if nm.iter().any(|&x| x >= 0x80) {
+                self.send(format!("utf8 {}", hex(nm)));
+            }
+        }
+        self.send(format!("parse {}", hex(&b)));
+        // `built_ok` is set by an accepting parse; a rejected manifest with a malformed name is non-trivial too
+        let nontrivial = !names.is_empty();
+        let key = self.c.lines.join("\n");
+        self.s.case(if nontrivial { Some(&key) } else { None });
+    }
+
+    /// the UTF-8 validator alone: every 1-byte string, every 2-byte string with a non-ASCII lead,
+    /// 3- and 4-byte strings around every boundary of table 3-7
+    fn utf8_sweep(&mut self, thorough: bool) {
+        self.send("begin install".into());
+        for a in 0..=255u8 {
+            self.send(format!("utf8 {}", hex(&[a])));
+        }
+        for a in 0x80..=0xFFu8 {
+            for b in 0..=255u8 {
+                if thorough || b % 3 == (a % 3) || [0x7F, 0x80, 0x8F, 0x90, 0x9F, 0xA0, 0xBF, 0xC0].contains(&b) {
+                    self.send(format!("utf8 {}", hex(&[a, b])));
+                }
+            }
+        }
+        let edge = [0x00u8, 0x7F, 0x80, 0x8F, 0x90, 0x9F, 0xA0, 0xBF, 0xC0];
+        for a in [0xE0u8, 0xE1, 0xEC, 0xED, 0xEE, 0xEF] {
+            for &b in &edge { for &c_ in &edge { self.send(format!("utf8 {}", hex(&[a, b, c_]))); } }
+        }
+        for a in [0xF0u8, 0xF1, 0xF3, 0xF4, 0xF5] {
+            for &b in &edge { for &c_ in &[0x7Fu8, 0x80, 0xBF, 0xC0] { for &d in &[0x7Fu8, 0x80, 0xBF, 0xC0] { self.send(format!("utf8 {}", hex(&[a, b, c_, d]))); } } }
+        }
+        for _ in 0..(if thorough { 20000 } else { 2000 }) {
+            let n = self.rng.range(1, 8) as usize;
+            let v = self.rng.bytes(n);
+            self.send(format!("utf8 {}", hex(&v)));
+        }
+        let key = format!("utf8-sweep {}", self.c.lines.len());
+        self.s.case(Some(&key));
+    }
 }
 
 fn main() {
     let args = Args::parse();
     quiet_panics();
     let mut s = Session::new(&args.out);
-    s.rule = "builder programs (add tag / add file / associate (by name, by index) / dissociate / remove file / remove tag, valid and rejected arguments) on InstallManifestBuilder, DownloadManifestBuilder (versions 1-3, checksums, flag sizes 0-4, base priority and priorities over -128..=127, sizes 0, 2^32-1, 2^32, 2^40-1, 2^40) and SizeManifestBuilder; boundary family: every file count 0..=70 x removal positions {none, 0, 7, 8, 9, n-9, n-8, n-2, n-1} (every position for n <= 18) for install V1/V2 and download; random programs up to 70 files / 20 tags (thorough: also up to 300 files); after each build: re-parse, independent bit reader, per-tag / all-of / any-of / size / priority queries, truncated inputs; non-trivial = the program reached a successful build with at least one tag and one file; distinct = full program text".into();
+    s.rule = "builder programs (add tag / add file / associate (by name, by index) / dissociate / remove file / remove tag, valid and rejected arguments) on InstallManifestBuilder, DownloadManifestBuilder (versions 1-3, checksums, flag sizes 0-4, base priority and priorities over -128..=127, sizes 0, 2^32-1, 2^32, 2^40-1, 2^40) and SizeManifestBuilder (mask part; whole builder: version 0-3, key size 0/1/9/16/17, esize width 0-9, tag_count setter, esizes at the width / 40-bit-total / u64 boundaries, serialise + re-parse + totals + truncations); hand-framed install/download/size manifests with well-formed and malformed UTF-8 names and paths, the UTF-8 validator on all 1-byte strings, 2-byte strings with a non-ASCII lead, table 3-7 boundaries and random strings; boundary family: every file count 0..=70 x removal positions {none, 0, 7, 8, 9, n-9, n-8, n-2, n-1} (every position for n <= 18) for install V1/V2 and download; random programs up to 70 files / 20 tags (thorough: also up to 300 files); after each build: re-parse, independent bit reader, per-tag / all-of / any-of / size / priority queries, truncated inputs; non-trivial = the program reached a successful build with at least one tag and one file; distinct = full program text".into();
     let mut rng = Rng::new(args.seed);
 
     if let Some(p) = &args.replay {
@@ -1285,6 +1789,30 @@ fn main() {
     for _ in 0..(if thorough { 200 } else { 40 }) {
         g.size_case();
     }
+    // 3b. whole size builder: setters, explicit entries, serialise / re-parse / totals
+    for _ in 0..(if thorough { 3000 } else { 150 }) {
+        g.size_full_case();
+    }
+    // V2 total around the 40-bit field: 256 x (2^32-1) fits, 257 x (2^32-1) does not
+    for cnt in [256usize, 257] {
+        g.send("begin size".into());
+        g.send(format!("tag {} 1", hex(b"Windows")));
+        for i in 0..cnt {
+            let mut k = vec![0u8; 9];
+            k[7..9].copy_from_slice(&(i as u16).to_be_bytes());
+            g.send(format!("sentry {} 4294967295", hex(&k)));
+        }
+        g.send(format!("stagfile 0 {}", cnt - 1));
+        g.send("sser".into());
+        g.send("sreparse".into());
+        g.send("sq tags".into());
+        g.end_case();
+    }
+    // 3c. UTF-8 validation of names inside the three parsers, and the validator alone
+    for r in 0..(if thorough { 6000 } else { 300 }) {
+        g.utf8_case((r % 3) as u8);
+    }
+    g.utf8_sweep(thorough);
     // 4. configuration guards of the download builder
     for v in [0u64, 1, 2, 3, 4, 255, 256] {
         g.send(format!("begin download {v}"));
